@@ -28,6 +28,7 @@ import types
 from . import common
 from .common import enc, dec
 from . import jinja_grammar as G
+from . import c19_lexer as FL
 
 BREAKS = "\n\r\x0b\x0c\x1c\x1d\x1e\x85\u2028\u2029"
 _LINE = re.compile("([^" + BREAKS + "]*)(\r\n|[" + BREAKS + "]|$)")
@@ -304,6 +305,16 @@ def fail(ctx, key, what, replay_):
 
 # --------------------------------------------------------------------------------------------------
 def run(ctx: common.Ctx):
+    # ---- translator: data part of the tag rules (regenerated on every run) --------------------------------------
+    import sys as _sys
+    _sys.path.insert(0, str(common.VERIF))
+    try:
+        from translate import lexer_tables
+        _t, changed = lexer_tables.generate()
+        ctx.extra["translator"] = {"file": "lean/NunavutVerif/Gen/LexerTables.lean", "rewritten": changed, "word_ranges": len(_t["word"]),
+                                   "digit_ranges": len(_t["digit"]), "operators": len(_t["operators"])}
+    except Exception as e:  # noqa: BLE001 - Unsupported or a crash in the real module: the tie is broken
+        ctx.broken.append({"kind": "translator", "error": f"{type(e).__name__}: {e}"})
     drivers = ctx.prove(["C19"], exes=["lexer"])
     drv = drivers.get("lexer")
     bj, sj = modules()
@@ -435,9 +446,15 @@ def run(ctx: common.Ctx):
         ctx.sample({"lexer_source": s, "root_steps": evs, "tag_state_consumed": tab})
     ctx.sample({"lineprefix": ["  ", "a\n\nb\r\n"], "do_lineprefix": do_lineprefix("a\n\nb\r\n", "  "), "property_reference": ref_prefix("  ", "a\n\nb\r\n")})
 
-    # ---- tie 2b: Lexer.tokeniter's source normalisation (keep_trailing_newline off/on) -------------------------
+    # ---- tie 2a: the whole state machine (Model/LexerFull.lean) vs Lexer.tokeniter / Lexer.wrap, every setting ---------
     import time as _t
-    _t0 = _t.time(); ctx.extra["stream_seconds"] = {"before_normalisation": round(_t0 - ctx.t0, 1)}
+    _t0 = _t.time(); ctx.extra["stream_seconds"] = {"before_full_lexer": round(_t0 - ctx.t0, 1)}
+    FL.run_full_lexer(ctx, drv, bj, sj, [normalise_source(s) for s in corpus["lexer"]] + list(corpus["lexer"]),
+                      "O" if impl_variant.get(False) == "before-fix" else "B", fail)
+    ctx.extra["stream_seconds"]["full_lexer"] = round(_t.time() - _t0, 1)
+
+    # ---- tie 2b: Lexer.tokeniter's source normalisation (keep_trailing_newline off/on) -------------------------
+    _t0 = _t.time()
     run_normalisation(ctx, drv, bj, sj)
     ctx.extra["stream_seconds"]["normalisation"] = round(_t.time() - _t0, 1); _t0 = _t.time()
 
@@ -1282,6 +1299,10 @@ def replay(ctx, path):
         b = tokens_of(unedited_lexer(bj, env), rp["source"], bj.TemplateSyntaxError)
         print(json.dumps({"bundled_tokens": a, "unedited_tokens": b}))
         return 0 if a == b else 1
+    if stream in ("full-lexer", "full-lexer-marker"):
+        out, ok = FL.replay_full_lexer(rp, bj)
+        print(json.dumps(out))
+        return 0 if ok else 1
     if stream == "lineprefix":
         from nunavut.jinja.jinja2.filters import do_lineprefix
         got = do_lineprefix(rp["s"], rp["prefix"])
